@@ -1,5 +1,7 @@
 import MuduoVerif.Proofs.Codec
 import MuduoVerif.Proofs.Http
+import MuduoVerif.Proofs.CodecSkelTie
+import MuduoVerif.Proofs.HttpSkelTie
 /-!
 # C18 — stream decoders: segmentation-invariant, bounded, reject malformed input
 
@@ -501,5 +503,38 @@ theorem http_example :
       = [.request { method := .kGet, version := .kHttp10, path := [0x2f], query := [], headers := [] }] := by
   refine ⟨Http.Parsing.fresh, ?_⟩
   rw [http_seg_invariant]; decide
+
+/-! ## statement order of the modelled functions (T1) -/
+
+/-- **the models follow the code's statement order**: every modelled function of `ProtobufCodecLite.cc`, of the example
+`codec.cc`, of `HttpContext.cc` and the `HttpRequest` setters it calls performs the same significant actions (stores,
+buffer operations, callbacks, calls of the codec / zlib / protobuf, `retrieve`, `break` / `continue`, `return`), in the
+same order, under the same nesting of the same guards and `while` loops as `Model/Codec.lean` / `Model/Http.lean`
+(`Model/CodecSkelDecl.lean`, `Model/HttpSkelDecl.lean`); re-extracted from /repo on every run
+(`Generated/CodecSkel.lean`, `Generated/HttpSkel.lean`), proved in `Proofs/CodecSkelTie.lean`, `Proofs/HttpSkelTie.lean` -/
+theorem statement_order_tied :
+    (Gen.CodecSkel.send = CodecSkel.Decl.send ∧
+     Gen.CodecSkel.fillEmptyBuffer = CodecSkel.Decl.fillEmptyBuffer ∧
+     Gen.CodecSkel.onMessage = CodecSkel.Decl.onMessage ∧
+     Gen.CodecSkel.parseFromBuffer = CodecSkel.Decl.parseFromBuffer ∧
+     Gen.CodecSkel.serializeToBuffer = CodecSkel.Decl.serializeToBuffer ∧
+     Gen.CodecSkel.asInt32 = CodecSkel.Decl.asInt32 ∧
+     Gen.CodecSkel.checksum = CodecSkel.Decl.checksum ∧
+     Gen.CodecSkel.validateChecksum = CodecSkel.Decl.validateChecksum ∧
+     Gen.CodecSkel.parse = CodecSkel.Decl.parse ∧
+     Gen.CodecSkel.exFillEmptyBuffer = CodecSkel.Decl.exFillEmptyBuffer ∧
+     Gen.CodecSkel.exAsInt32 = CodecSkel.Decl.exAsInt32 ∧
+     Gen.CodecSkel.exOnMessage = CodecSkel.Decl.exOnMessage ∧
+     Gen.CodecSkel.exCreateMessage = CodecSkel.Decl.exCreateMessage ∧
+     Gen.CodecSkel.exParse = CodecSkel.Decl.exParse) ∧
+    (Gen.HttpSkel.processRequestLine = HttpSkel.Decl.processRequestLine ∧
+     Gen.HttpSkel.parseRequest = HttpSkel.Decl.parseRequest ∧
+     Gen.HttpSkel.setVersion = HttpSkel.Decl.setVersion ∧
+     Gen.HttpSkel.setMethod = HttpSkel.Decl.setMethod ∧
+     Gen.HttpSkel.setPath = HttpSkel.Decl.setPath ∧
+     Gen.HttpSkel.setQuery = HttpSkel.Decl.setQuery ∧
+     Gen.HttpSkel.setReceiveTime = HttpSkel.Decl.setReceiveTime ∧
+     Gen.HttpSkel.addHeader = HttpSkel.Decl.addHeader) :=
+  ⟨CodecSkel.skeletons_agree, HttpSkel.skeletons_agree⟩
 
 end MuduoVerif.C18
